@@ -109,7 +109,8 @@ def setup(common=None):
 
 def _clear_lru():
     for f in _U["lrus"]:
-        f.cache_clear()
+        if getattr(f, "__name__", "") != "cached_sympify":  # text -> sympy expression: no registry state, expensive to refill
+            f.cache_clear()
 
 
 def _rat(x):
@@ -140,7 +141,8 @@ def _digest(reg):
     for p in PROBES:
         try:
             u = Unit(p, registry=reg)
-            out.append({"k": "unit", "s": _rat(u.base_value), "own": u.registry is reg})
+            # "own": the resolved unit belongs to this registry (or to another registry OBJECT on the same table)
+            out.append({"k": "unit", "s": _rat(u.base_value), "own": u.registry is reg or u.registry.lut is reg.lut})
         except Exception:  # noqa: BLE001
             out.append({"k": "raise"})
         if len(lut) != len(s_lut) or len(cache) != len(s_cache):
@@ -176,6 +178,11 @@ def _nsdig():
     return hashlib.md5(repr(diff).encode()).hexdigest()[:16]
 
 
+def _inplace(q, u):
+    q.convert_to_units(u)
+    return q.d
+
+
 def _conv():
     uq = _U["uq"]
     unyt = _U["unyt"]
@@ -186,7 +193,7 @@ def _conv():
         lambda: uq(1.0, "km").to("m").d,
         lambda: uq(1.0, "m").in_cgs().d,
         lambda: (2.0 * unyt.km).in_base("mks").d,
-        lambda: (uq(3.0, "km") + uq(1.0, "m")).d,
+        lambda: _inplace(uq(3.0, "km"), "m"),  # (no arithmetic here: hashing a unit costs an md5 of the whole table)
     ):
         try:
             out.append(_rat(float(f())))
@@ -294,7 +301,10 @@ def step(R, e):
             u = U["Unit"](e["str"], registry=reg)
             obs = {"k": "unit", "s": _rat(u.base_value)}
         elif op == "define":
-            U["define_unit"](e["sym"], (float(e["scale"]), "m"), prefixable=bool(e["pfx"]))
+            if e["r"] == 0:
+                U["define_unit"](e["sym"], (float(e["scale"]), "m"), prefixable=bool(e["pfx"]))
+            else:
+                U["define_unit"](e["sym"], (float(e["scale"]), "m"), prefixable=bool(e["pfx"]), registry=reg)
             obs = {"k": "ok"}
         elif op == "new":
             if e["defs"]:
@@ -319,6 +329,13 @@ def step(R, e):
             u = U["Unit"](e["str"], registry=reg)
             c = u.copy(deep=True) if e["deep"] else u.copy()
             obs = _new(R, e, c.registry)
+        elif op == "handle":
+            if e["how"] == "copyreg":
+                new = copy.copy(reg)
+            else:
+                u = U["Unit"]("m", registry=reg)
+                new = (u**5).copy().registry  # "m**5" is in no string memo (the default registry's holds m**2, m**3 ...)
+            obs = _new(R, e, new)
         elif op == "usys":
             U["nusys"] += 1
             U["UnitSystem"]("c13_us_%d" % U["nusys"], e["sym"], "kg", "s", registry=reg)
@@ -355,7 +372,9 @@ def step(R, e):
             a = U["uq"](3.0, e["str"], registry=reg)
             b = U["uq"](2.0, e["str2"], registry=R[e["r2"]])
             res = a * b if e["fn"] == "mul" else a / b if e["fn"] == "div" else a + b
-            obs = {"k": "res", "r": _idof(R, res.units.registry)}
+            # lreg / rreg: the registry objects the operands actually carry (a memoised unit belongs to the registry
+            # object that first built it, which may be another handle on the same table)
+            obs = {"k": "res", "r": _idof(R, res.units.registry), "lreg": _idof(R, a.units.registry), "rreg": _idof(R, b.units.registry)}
         else:
             raise ValueError("unknown op " + op)
     except Exception as ex:  # noqa: BLE001
@@ -364,7 +383,6 @@ def step(R, e):
     out = dict(e)
     out["obs"] = obs
     out["exc"] = exc
-    U["D"].unit_system_id  # re-memoise after an add (otherwise every later hash of a unit costs 4 ms)
     out.update(_snapshot_all(R))
     return out
 
